@@ -4,7 +4,7 @@
 (* Theorems (vacuity guards of the fault model): a fault action always leaves ~Valid; benign   *)
 (* actions preserve Valid; a second fault never repairs the first.                             *)
 EXTENDS Validate, TLC
-CONSTANT MaxFaults
+CONSTANT MaxFaults, OrderSet
 VARIABLES t, hist          \* hist: sequence of [f, args] describing what was injected
 vars == <<t, hist>>
 Row(pid, hh, sp, pa, e1, e2, gv, hv) == [pid |-> pid, hh |-> hh, sp |-> sp, pa |-> pa, e1 |-> e1, e2 |-> e2, gv |-> gv, hv |-> hv]
@@ -14,7 +14,13 @@ BaseSeq == <<
   <<Row(10, 0, -1, -1, -1, -1, FALSE, 5), Row(12, 0, -1, -1, 10, -1, FALSE, 5)>>,
   <<Row(10, 0, 11, 11, -1, -1, TRUE, 5), Row(11, 0, 10, 10, -1, -1, TRUE, 5), Row(12, 0, -1, -1, 10, 11, FALSE, 5), Row(20, 1, -1, -1, -1, -1, FALSE, 7)>> >>
 DCols == {"alter", "bruttolohn_m", "kind"}       \* an int, a float and a bool column
-Init == \E b \in 1..Len(BaseSeq) : t = [bi |-> b, rows |-> BaseSeq[b], nopid |-> FALSE, dropped |-> {}, dup |-> {}, dtype |-> [c \in DCols |-> "ok"]] /\ hist = <<>>
+\* Row orders of the four-row base table: Valid does not depend on the order of rows, so every fault must be rejected in
+\* every order (members of one household need not be adjacent).  Order 1 is the identity.
+Orders == << <<1, 2, 3, 4>>, <<1, 4, 2, 3>>, <<4, 3, 2, 1>>, <<1, 2, 4, 3>>, <<3, 4, 1, 2>>, <<4, 1, 2, 3>> >>
+Init == \E b \in 1..Len(BaseSeq), o \in OrderSet :
+          /\ (Len(BaseSeq[b]) = 4 \/ o = 1)
+          /\ t = [bi |-> b, ord |-> o, rows |-> [k \in 1..Len(BaseSeq[b]) |-> BaseSeq[b][Orders[o][k]]], nopid |-> FALSE, dropped |-> {}, dup |-> {}, dtype |-> [c \in DCols |-> "ok"]]
+          /\ hist = <<>>
 N == Len(t.rows)
 Faults == Cardinality({i \in 1..Len(hist) : hist[i].fault})
 SetCell(i, c, v) == [t EXCEPT !.rows[i][c] = v]
